@@ -19,12 +19,15 @@
 (***************************************************************************)
 EXTENDS Naturals, Integers, Sequences, FiniteSets, TLC, Errors
 
-CONSTANTS MaxDefects,      \* explore requests with at most this many simultaneous defects
+CONSTANTS Bug,             \* "none" = the pipeline as designed; any other value switches on ONE deliberately wrong
+                           \* behaviour (negative controls: each must make TLC report the invariant it breaks)
+          MaxDefects,      \* explore requests with at most this many simultaneous defects
           MaxValidations,  \* validations sharing one provider in a history
           MaxPending       \* provider may answer Pending this many times (readiness and future)
 
 Structural == {1, 2, 3, 5, 6, 7, 8, 9, 10, 11, 12, 13, 14}
-RuleSeq    == <<1, 2, 3, 5, 6, 7, 8, 9, 10, 11, 12, 13, 14>>
+RuleSeq    == IF Bug = "scope_before_window" THEN <<1, 2, 3, 5, 6, 7, 8, 9, 10, 13, 14, 11, 12>>
+              ELSE <<1, 2, 3, 5, 6, 7, 8, 9, 10, 11, 12, 13, 14>>
 AllDefects == Structural \cup {16}
 
 Carriers == {"hdr", "qry", "both", "none"}
@@ -168,8 +171,19 @@ PollFutureOk ==
     /\ UNCHANGED <<q, script, prov, calls, result, nval, total>>
 PollFutureErr ==
     /\ pc = P("await") /\ prov.pendIn = 0 /\ script.answer # "ok"
-    /\ Finish(IF script.answer = "sigerr" THEN ProviderErr(script) ELSE ErrR("InternalServiceError", 15))
-    /\ UNCHANGED <<q, script, prov, calls, nval, total>>
+    /\ CASE Bug = "accept_on_provider_error" -> Finish(Ok) /\ UNCHANGED <<q, script, prov, calls, nval, total>>
+         [] Bug = "retry_on_error" /\ calls < 2 -> pc' = P("call") /\ UNCHANGED <<q, script, prov, calls, result, nval, total>>
+         [] OTHER -> /\ Finish(IF script.answer = "sigerr" THEN ProviderErr(script) ELSE ErrR("InternalServiceError", 15))
+                     /\ UNCHANGED <<q, script, prov, calls, nval, total>>
+\* negative controls only
+CallEarly ==
+    /\ Bug = "call_before_rules" /\ pc = <<"rule", 1>> /\ calls = 0
+    /\ calls' = 1 /\ total' = total + 1
+    /\ UNCHANGED <<pc, q, script, prov, result, nval>>
+SkipReady ==
+    /\ Bug = "skip_ready" /\ pc = P("ready")
+    /\ pc' = P("call")
+    /\ UNCHANGED <<q, script, prov, calls, result, nval, total>>
 Compare ==
     /\ pc = P("compare")
     /\ Finish(IF 16 \in q.defects THEN ErrR("SignatureDoesNotMatch", 16) ELSE Ok)
@@ -181,14 +195,14 @@ Return ==
     /\ UNCHANGED <<q, script, prov, calls, result, total>>
 
 ProviderStep == PollReadyPending \/ PollReadyReady \/ PollReadyErr \/ Call
-                \/ PollFuturePending \/ PollFutureOk \/ PollFutureErr
+                \/ PollFuturePending \/ PollFutureOk \/ PollFutureErr \/ CallEarly \/ SkipReady
 Next == Begin \/ RuleStep \/ ProviderStep \/ Compare \/ Return
 Spec == Init /\ [][Next]_vars
 FairSpec == Spec /\ WF_vars(RuleStep \/ ProviderStep \/ Compare)
 
 \* ---------------------------------------------------------------- properties
 TypeOK ==
-    /\ ViewOk(q) /\ script \in Scripts /\ calls \in 0..1 /\ nval \in 0..MaxValidations
+    /\ ViewOk(q) /\ script \in Scripts /\ calls \in 0..2 /\ nval \in 0..MaxValidations
     /\ result.tag \in {"none", "ok", "err"}
 
 \* C13: the reported error is that of the earliest failing rule (declarative Pure), with the
